@@ -62,6 +62,15 @@ class Monitor:
     def after_req(self, run, req, label, resp):
         pass
 
+    def before_tick(self, run):
+        pass
+
+    def mid_tick(self, run):
+        pass
+
+    def after_tick(self, run):
+        pass
+
     def end(self, run):
         pass
 
